@@ -122,6 +122,12 @@ def cases(tier, seed, shard, nshards):
             yield {"k": "write_file", "doc": r.randrange(len(DOCS)), "target": r.choice(["path", "stringio", "fileobj", "duck", "codecs", "spooled", "textwrapper"]),
                    "pos": r.choice(["unparse", "prepend"]) if wst else "none", "stack": wst,
                    "fmt": r.choice([None, ["  ", 12, True, "\n", None], ["", "auto", False, "\n\n\n", None]])}
+    for size in ([4096, 8192, 65536, 1 << 20] if tier == "quick" else [4096, 8192, 65536, 131072, 1 << 20, 1 << 21, 1 << 23]):
+        for variant in range(3):
+            for enc in ("utf-8", "utf-16", None):
+                idx += 1
+                if idx % nshards == shard:
+                    yield {"k": "parse_file", "doc": variant, "big": size, "enc": enc, "pos": ["none", "append", "parse_stack"][variant], "stack": [] if variant == 0 else [["ship", "RemoveEnclosingMiddleware"]] if variant == 2 else [["probe", "A"]]}
     shapes = ["none", "empty_list", "empty_tuple", "empty_str", "same", "one_new", "list1", "list2", "list3", "tuple2", "generator2",
               "int", "str", "object", "dict", "list_with_nonblock", "list_with_none", "zero", "false", "zero_float", "falsy_object", "falsy_block"]
     # "tb:<kind>": the probe overrides transform_block itself and answers for blocks of that kind - also for the failed kinds,
@@ -246,7 +252,30 @@ def fold(lib, mws):
     return lib
 
 
+_BIG = {}
+
+
+def big_doc(size, variant):
+    """A document just over `size` characters (I/O buffer and chunk sizes: 4 KiB ... 1 MiB, seed C11-m: parse_file read the file in
+    pieces of 1 MiB and ran the whole stack after each): entries whose ENCLOSED values are spelled like a macro that is defined only
+    at the very end, a bare reference to it, a duplicate key and an unterminated block in the last piece."""
+    if (size, variant) not in _BIG:
+        e = "@article{k%d,\n  title = {jrnl},\n  note = \"jrnl\",\n  journal = jrnl,\n  month = %s,\n  abstract = {%s}\n}\n%% remark %d\n"
+        parts, n, i = [], 0, 0
+        while n < size + 100:
+            t = e % (i, ["jan", "{jan}", "1"][i % 3], "lorem é " * [5, 40, 400][(i + variant) % 3], i)
+            parts.append(t)
+            n += len(t)
+            i += 1
+        parts.append(["@string{jrnl = {Journal of Tests}}\n@string{jan = {Januar}}\n@article{k0, title = jrnl}\n", "@string{jrnl = \"J\"}\n@article{k1, t = {x\n",
+                      "@article{last, journal = jrnl # jan}\n@string{jrnl = {J}}\n"][variant % 3])
+        _BIG[(size, variant)] = "".join(parts)
+    return _BIG[(size, variant)]
+
+
 def doc_text(case):
+    if case.get("big"):
+        return big_doc(case["big"], case["doc"])
     if case["doc"] <= -2:
         return BOM_DOCS[-2 - case["doc"]]
     if case["doc"] == -1:
